@@ -114,6 +114,11 @@ def loops():
         return [p.local(["n"], [p.num(0)]), p.emit([p.str("start")]), p.emit([p.call(p.call(_co(p, "wrap"), [p.id("pcall")]), [spin])]), p.emit([p.str("unreachable")])]
     mk("host_function_body_calls_back", host_body_callback)
 
+    def host_body_callback_cancelled(p):    # ... and the callback has the host cancel before it starts spinning
+        spin = p.func([], p.block([p.callstat(p.call(p.id("gcancel"), [])), p.while_(p.true(), p.block(tick(p)))]))
+        return [p.local(["n"], [p.num(0)]), p.emit([p.str("start")]), p.emit([p.call(p.call(_co(p, "wrap"), [p.id("pcall")]), [spin])]), p.emit([p.str("unreachable")])]
+    mk("host_function_body_cancels_then_spins", host_body_callback_cancelled)
+
     def host_body_gcall(p):
         spin = p.func([], p.block([p.while_(p.true(), p.block(tick(p)))]))
         return [p.local(["n"], [p.num(0)]), p.local(["c"], [p.call(_co(p, "create"), [p.id("gcall")])]), p.emit([p.call(_co(p, "resume"), [p.id("c"), spin])]),
@@ -121,16 +126,18 @@ def loops():
     mk("host_function_body_gcall", host_body_gcall)
 
     # loops whose body is empty: every iteration still is a dispatch
-    mk("empty_numeric_for", lambda p: [p.emit([p.str("start")]), p.fornum("i", p.num(1), p.num(1000000000), 0, p.block([])), p.emit([p.str("unreachable")])])
-    mk("empty_numeric_for_down", lambda p: [p.emit([p.str("start")]), p.fornum("i", p.num(0), p.num(-1000000000), p.num(-1), p.block([])), p.emit([p.str("unreachable")])])
+    mk("empty_numeric_for", lambda p: [p.emit([p.str("start")]), p.fornum("i", p.num(1), p.id("ghuge"), 0, p.block([])), p.emit([p.str("unreachable")])])
+    mk("empty_numeric_for_down", lambda p: [p.emit([p.str("start")]), p.fornum("i", p.num(0), p.un("-", p.id("ghuge")), p.num(-1), p.block([])), p.emit([p.str("unreachable")])])
+    # the host cancels, then the script enters an empty loop that would never end
+    mk("host_cancel_then_empty_for", lambda p: [p.emit([p.str("start")]), p.callstat(p.call(p.id("gcancel"), [])), p.fornum("i", p.num(1), p.id("ghuge"), 0, p.block([])), p.emit([p.str("unreachable")])])
 
     def empty_for_in_pcall_retry(p):
-        f = p.func([], p.block([p.fornum("i", p.num(1), p.num(1000000000), 0, p.block([]))]))
+        f = p.func([], p.block([p.fornum("i", p.num(1), p.id("ghuge"), 0, p.block([]))]))
         return [p.local(["n"], [p.num(0)]), p.while_(p.true(), p.block([p.emit([p.str("caught"), p.call(p.id("pcall"), [f])])] + tick(p)))]
     mk("empty_for_inside_pcall_retry", empty_for_in_pcall_retry)
 
     def empty_for_in_coroutine(p):
-        body = p.func([], p.block([p.fornum("i", p.num(1), p.num(1000000000), 0, p.block([]))]))
+        body = p.func([], p.block([p.callstat(p.call(p.id("gcancel"), [])), p.fornum("i", p.num(1), p.id("ghuge"), 0, p.block([]))]))
         return [p.emit([p.str("start")]), p.emit([p.call(_co(p, "resume"), [p.call(_co(p, "create"), [body])])]), p.emit([p.str("unreachable")])]
     mk("empty_for_inside_coroutine", empty_for_in_coroutine)
     mk("empty_while", lambda p: [p.emit([p.str("start")]), p.while_(p.true(), p.block([])), p.emit([p.str("unreachable")])])
